@@ -37,7 +37,8 @@ def gen_quarantine_script(rng):
     # with its index file removed first, a damaged blob is inside the crash model (Storage/Model.v OCut): the model
     # predicts every counter after the restart; a blob damaged below what its index file describes is not (wildcards)
     modelled = rng.random() < 0.7
-    L = ['cfg K=4 dup=1 group=2 bloom=none init=%s runtime=%s' % (rng.choice(['eager', 'lazy']), rng.choice(['mt', 'ct'])), 'open']
+    # the name of the quarantine directory is configuration (listings print it as `corrupted/` whatever it is)
+    L = ['cfg K=4 dup=1 group=2 bloom=none init=%s runtime=%s%s' % (rng.choice(['eager', 'lazy']), rng.choice(['mt', 'ct']), rng.choice(['', '', ' corrdir=bad.blobs', ' corrdir=q'])), 'open']
     seed = 0
     nb = rng.choice([1, 1, 2, 3])
     for b in range(nb):
